@@ -32,7 +32,7 @@ REQUIRED_THEOREMS = [
     "checkSignature_sound", "exprFunction_closed", "withUser_call1", "withUser_call2", "withUser_base", "eval_idx_bound",
     "defined_div", "defined_powI", "primTab_names", "primTab_alg",
     "getItem_map", "index_eval", "index_eval_item", "index_index", "index_diff", "index_rank", "index_function_eval",
-    "chain_function_eval", "exprFunction_reprepared", "tensorFunction_reprepared", "checkSignature_prepared",
+    "chain_function_eval", "tensorFunction_component", "exprFunction_reprepared", "tensorFunction_reprepared", "checkSignature_prepared",
     "select_eval", "select_cmp_eval", "dependsOn_sound",
 ]
 RULE = ("programs = expression texts drawn by a type-directed (interval-typed) random generator over the whole "
@@ -231,6 +231,19 @@ def gen_scalar_program(rng, i, jit):
             diffable = True
         if rng.random() < 0.5:
             e = X.bi("add", gen.gen(2, "any") if not diffable else X.bi("mul", v, v), e)
+    if family is None and rng.random() < 0.02 and variables:
+        # regression family: an inequality that is a polynomial (degree >= 2) in ONE symbol times a negative non-rational
+        # constant; sympy 1.14's simplification divides by that constant without reversing the inequality (proposed fix
+        # notes/proposed_fixes/C11-inequality-simplification.diff)
+        family = "inequality-negative-factor"
+        top_cmp, diffable = True, False
+        v = X.var(rng.choice(sorted(variables)))
+        c = rng.choice([X.un("call1", X.num("4"), f="sin"), X.un("call1", X.num("2"), f="cos"),
+                        X.un("call1", X.num("0.5"), f="log"), X.un("call1", X.num("2"), f="tan")])
+        poly = rng.choice([{"k": "powi", "a": v, "n": 2}, {"k": "powi", "a": v, "n": 3}, X.bi("mul", X.bi("mul", v, v), v),
+                           X.bi("add", {"k": "powi", "a": v, "n": 2}, v)])
+        lhs = X.bi("mul", poly, c) if rng.random() < 0.5 else X.bi("mul", c, poly)
+        e = {"k": "cmp", "op": rng.choice(sorted(X.CMP)), "a": lhs, "b": rng.choice([X.num("1"), X.num("0.5"), X.un("neg", X.num("2"))])}
     # signature: order, synonyms, repl
     sig_names = list(names) + ([indexed_var] if indexed_var else [])
     rng.shuffle(sig_names)
@@ -995,11 +1008,28 @@ def ufunc_source(name, ps, body):
     lines = [f"def {name}({', '.join(ps)}):"] + [f"    {q_} = {q_} * 1.0" for q_ in ps]
     cur = body
     while cur["k"] == "pw":
-        lines.append(f"    if {X.to_text(cur['h'])}:")
-        lines.append(f"        return {X.to_text(cur['a'])}")
+        lines.append(f"    if {X.to_text(float_literals(cur['h']))}:")
+        # a branch that is a bare integer literal stays one: the function then returns a Python int there
+        lines.append(f"        return {X.to_text(cur['a'] if cur['a']['k'] == 'num' else float_literals(cur['a']))}")
         cur = cur["b"]
-    lines.append(f"    return {X.to_text(cur)}")
+    lines.append(f"    return {X.to_text(cur if (cur['k'] == 'num' and cur is not body) else float_literals(cur))}")
     return "\n".join(lines) + "\n"
+
+
+def float_literals(e):
+    """the same expression with integer literals written as floats (`1` -> `1.0`; exponents of integer powers stay
+    integers): inside the user's numpy code `(abs(0) + 1)**-1` would be integer arithmetic of numpy (`ValueError:
+    Integers to negative integer powers are not allowed`; `0` under numba) - a property of the user's code, not of the
+    expression pipeline, like the conversion of the arguments"""
+    e = dict(e)
+    for c in ("a", "b", "h"):
+        if c in e:
+            e[c] = float_literals(e[c])
+    if e["k"] == "num" and "/" not in e["v"]:
+        t = e.get("t") or e["v"]
+        if "." not in t and "e" not in t.lower():
+            e["t"] = t + ".0"
+    return e
 
 
 COMPLEX_TYPED = [0]
@@ -1007,8 +1037,9 @@ COMPLEX_TYPED = [0]
 
 def _fl(v):
     """canonical float (or None for non-finite / genuinely complex values).  A complex-TYPED value with vanishing
-    imaginary part (sympy's simplification without real assumptions can produce `exp(erf(re(x) - I*im(x))/2 + ...)`)
-    has the value of its real part; such results are counted (`complex_typed_results`)."""
+    (at most 1e-12 relative) imaginary part (sympy's simplification without real assumptions can produce
+    `exp(erf(re(x) - I*im(x))/2 + ...)`) has the value of its real part; such results are counted
+    (`complex_typed_results`)."""
     import numpy as np
 
     v = np.asarray(v)
@@ -1016,7 +1047,10 @@ def _fl(v):
         return None
     v = v[()]
     if isinstance(v, (complex, np.complexfloating)):
-        if v.imag != 0:
+        # an imaginary part three orders of magnitude below the comparison tolerance (sympy's evalf returns
+        # `0.4497140385544759+6.2e-18j` for a real atan2) cannot change a comparison at that tolerance: the value is
+        # its real part; anything larger is a wrong (complex) value
+        if not (abs(v.imag) <= 1e-3 * TOL * abs(v.real)):
             return None
         COMPLEX_TYPED[0] += 1
         v = v.real
@@ -1911,7 +1945,7 @@ def judge_program(ctx, p, res, ans_main, ansF, stats, ians=None):
         tol = TOL
         if val is None or not close(val, lv, tol):
             disagree_keyed(ctx, base, c, lv, val, "py-pde value differs from the model's value",
-                           finding_key(p, route, "", None if is_d else comp))
+                           finding_key(p, route, "", None if is_d else comp, None if is_d else ipt))
         if pv is None and is_d:
             # no numerical derivative (the formula is not smooth / not real in a neighbourhood for mpmath): the monitor
             # falls back on the model's `diff`, which `diff_sound` proves to be the derivative of the formula
@@ -1926,7 +1960,7 @@ def judge_program(ctx, p, res, ans_main, ansF, stats, ians=None):
                 (val is None or not close(val, pv, tol))
             if bad:
                 ctx.monitor_fail(base, c, val, pv, f"{base}: value differs from the written formula",
-                                 key=finding_key(p, route, "", None if is_d else comp))
+                                 key=finding_key(p, route, "", None if is_d else comp, None if is_d else ipt))
     if kind == "tindex" and ians is not None:
         judge_index(ctx, p, res, mode, ans, ians, refs, texts, case, n_ok, dref_cache)
 
@@ -2155,13 +2189,41 @@ def fscale(refs, ipt):
     return max(vs + [1.0])
 
 
-def finding_key(p, route, msg, orig=None):
+def simplify_flips_inequality(p, ipt):
+    """True if the program is one comparison whose truth value at point `ipt` is changed by `sympy.simplify` (sympy
+    1.14 divides a polynomial inequality in one symbol by the gcd of its coefficients without reversing it when that
+    gcd is a negative non-rational number: `N**3*sin(4) <= 1` becomes `N**3 <= 1/sin(4)`)"""
+    if p["rank"] != 0 or not isinstance(p.get("ast"), dict) or p["ast"].get("k") != "cmp" or ipt is None:
+        return False
+    if any(n["k"] in ("call1", "call2") and n["f"] in (p.get("ufuncs") or {}) for n in X.walk(p["ast"])):
+        return False                # a user function is called: sympy alone cannot evaluate the comparison
+    try:
+        import sympy
+
+        used = X.symbols(p["ast"])
+        env = {n: v for n, v in env_of(p, ipt).items() if n in used}
+        if any(isinstance(v, (list, tuple)) for v in env.values()):
+            return False
+        syms = {n: sympy.Symbol(n) for n in env}
+        rel = sympy.parse_expr(p["texts"], local_dict=dict(syms, heaviside=sympy.Heaviside, hypot=lambda a, b: sympy.sqrt(a * a + b * b)))
+        vals = {syms[n]: v for n, v in env.items()}
+        before = bool(rel.subs(vals))
+        after = bool(sympy.simplify(rel).subs(vals))
+        return before != after
+    except Exception:           # the attribution is best effort: without it the failure keeps its general key
+        return False
+
+
+def finding_key(p, route, msg, orig=None, ipt=None):
     """structural key of a monitor failure (matched against known_findings.json); `orig` = the component of the
-    array whose value is wrong"""
+    array whose value is wrong, `ipt` the point"""
     base = route.split(":")[0]
     key = {"kind": p["kind"], "route": base}
     if msg:
         key["error"] = msg.split(":")[0]
+    if not msg and simplify_flips_inequality(p, ipt):
+        key.update({"call_site": "ExpressionBase.__init__ (sympy.simplify)",
+                    "symptom": "simplification changes the truth value of an inequality"})
     if "of type int which has no callable" in msg or ("int too big" in msg.lower()) or "Int value is too large" in msg:
         key.update({"call_site": "make_expression_function (sympy printer)",
                     "symptom": "integer literal beyond int64 reaches a numpy ufunc"})
@@ -2187,8 +2249,8 @@ def finding_key(p, route, msg, orig=None):
 
 
 def name_capture(p, orig):
-    """component `orig` contains a power that sympy prints as `sqrt(..)` / `exp(..)` while the program defines a user
-    function of that name"""
+    """component `orig` contains a power that sympy prints as `sqrt(..)` / `exp(..)` (`q**(1/2)`, `q**-(1/2)`, `E**a`,
+    `E**2`) while the program defines a user function of that name"""
     uf = p.get("ufuncs") or {}
     if not ({"sqrt", "exp"} & set(uf)):
         return False
@@ -2200,6 +2262,8 @@ def name_capture(p, orig):
                 return True
             if "exp" in uf and n["a"] == {"k": "named", "n": "E"}:
                 return True
+        if n["k"] == "powi" and "exp" in uf and n["a"] == {"k": "named", "n": "E"} and n["n"] not in (0, 1):
+            return True             # `E**2` is `exp(2)` for sympy
     return False
 
 
